@@ -12,6 +12,7 @@ from .roles import CONFIG_ATTR, VIEWS, roles
 
 def run(ctx):
     c, p, res = ctx.c, ctx.p, ctx.r
+    shared.armed_on_every_entry(ctx, "R14")
     shared.arming_key_is_cancelling_key(ctx, "R13")
     shared.declared_entries_kept(ctx, "R12", "_parse_after", "'after' delays", "the delayed transition is never armed")
     # ---- R1 cancel before exit actions -------------------------------------------
